@@ -679,13 +679,25 @@ func (g *fedGen) inject(kind string) {
 		}
 		fa := []gField{{Name: "x", Type: "Int"}, {Name: "y", Type: "Int"}}
 		fb := []gField{{Name: "y", Type: "Int"}, {Name: "z", Type: "Int"}}
-		switch r.Intn(3) {
+		switch r.Intn(5) {
 		case 1:
 			fb = []gField{{Name: "y", Type: "Int"}} // strict subset
 		case 2:
 			if k == "object" { // differ only by id
 				fa = []gField{{Name: "id", Type: "ID!"}, {Name: "y", Type: "Int"}}
 				fb = []gField{{Name: "y", Type: "Int"}}
+			}
+		case 3: // both declare a field NAMED id that is not the relay id (`id: ID!` without arguments), and differ elsewhere
+			idf := gField{Name: "id", Type: hx.Pick(r, []string{"Int!", "String!", "ID", "[ID!]!", "Int"})}
+			fa = []gField{idf, {Name: "x", Type: "Int"}}
+			fb = []gField{idf, {Name: "z", Type: "Int"}}
+			g.tag("overlap in a non-relay id field")
+		case 4:
+			if k == "object" { // `id` with an argument is an ordinary field too
+				idf := gField{Name: "id", Type: "ID!", Args: []gArg{{Name: "v", Type: "Int"}}}
+				fa = []gField{idf, {Name: "x", Type: "Int"}}
+				fb = []gField{idf, {Name: "z", Type: "Int"}}
+				g.tag("overlap in a non-relay id field")
 			}
 		}
 		if r.Chance(1, 2) {
